@@ -59,8 +59,13 @@ def str2msg(text):
     calling check_msgdict().
     """
     words = text.split()
+    if not words:
+        raise ValueError('string contains no message')
     type_ = words[0]
     args = words[1:]
+
+    if type_ not in SPEC_BY_TYPE:
+        raise ValueError(f'unknown message type {type_!r}')
 
     msg = {}
 
